@@ -201,6 +201,7 @@ fn main() {
                 run_rs_stream(&o, &mut rep, "deep-none", "a None that arises deep inside (missing field, index out of range, step into None, none literal) under 1..5 enclosing operators, each applied with the None-valued expression in either operand position and an arbitrary pool value (including ones that alone would be a type error) in the other; the expected outcome (None / false / true) is computed from the property's rule and checked on the implementation alone, then against the model", false, cases, "full");
             }
             if o.prop == "C01" || o.prop == "C02" {
+                run_rs_stream(&o, &mut rep, "long-chains", "left-nested chains of 10 / 33 / 40 / 70 / 150 operands for every binary operator (one operator, or two of a family alternating) with a special operand (None, a type error, zero, an extreme, NaN) at the start, in the middle or at the end; lists and maps of that many items, access paths and unary towers up to 60 deep", false, streams::chain_cases(), if o.prop == "C01" { "range" } else { "full" });
                 let mut rng = rng::Rng::new(o.seed);
                 let n = if o.tier == "thorough" { 300000 } else { 20000 };
                 let cases = streams::random_cases(&mut rng, n, o.tier == "thorough");
@@ -223,7 +224,7 @@ fn main() {
         "C05" => {
             let mut rng = rng::Rng::new(o.seed);
             let cases = streams::lazy_cases(&mut rng, o.tier == "thorough");
-            run_rs_stream(&o, &mut rep, "lazy-trees", "every operator of {if and or == != + contains > list map call call-of-an-unregistered-function call-of-a-cacheable-function duplicated-sub-expression index ! some &} over every tuple of 9 leaf kinds (logging non-cacheable calls returning true/false/none/value/failing with a unique argument per call site, the literals true/false/none, and the call-free error i1 / i0) exhaustively at depth 1; depth 2: every (operator, child position, child operator, child leaves) with the remaining children over {call true, call false, call failing, literal true, literal false}; depth 3 random; compared on the exact invocation sequence and the error class of the result", false, cases, "log");
+            run_rs_stream(&o, &mut rep, "lazy-trees", "every operator of {if and or == != + contains > list map call call-of-an-unregistered-function call-of-a-cacheable-function duplicated-sub-expression index ! some &} over every tuple of 10 leaf kinds (logging non-cacheable calls returning true/false/none/value/failing with a unique argument per call site, the literals true/false/none, the call-free error i1 / i0, a cacheable failing call) exhaustively at depth 1; depth 2: every (operator, child position, child operator, child leaves) with the remaining children over {call true, call false, call failing, literal true, literal false}; depth 3 random; left-nested chains of 10 / 33 / 40 / 70 links over one or two alternating operators with the deciding or failing leaf at the start, middle or end; compared on the exact invocation sequence and the error class of the result", false, cases, "log");
         }
         "C09" => {
             let mut rng = rng::Rng::new(o.seed);
